@@ -82,16 +82,21 @@ CLAIMED["C13"] = dict(
 )
 
 CLAIMED["C02"] = dict(
-    text="Lean 4 theorems for strings of any length over all Unicode scalar values: json.loads(json.dumps(v)) == v for the "
-    "writer/reader pair of the 'diff' formatter and the parser (ensure_ascii escapes, surrogate pairs, strict reader), and every "
-    "dumped value is printable ASCII, hence contains no str.splitlines() boundary - one action per line. PARTIAL: "
-    "parse(format(script)) = script for the whole line grammar (splitlines, field scanner, strip, dispatch, int, paths) is "
-    "modelled (Model/TextFormat.lean) and compared with the code on every run (U6: well-formed and malformed text, the "
-    "critical character set in every value field), but not yet proved; the property itself is decided on the real code by "
-    "the round-trip oracle and the diff_texts|patch_text and xmldiff|xmlpatch pipelines.",
+    text="Lean 4 theorems, for action lists of any length and strings of any length over all Unicode scalar values: "
+    "parse(format(script)) = script through the whole line grammar of DiffFormatter / DiffParser - str.splitlines, the bracket and "
+    "continuation logic, the JSON-aware field splitter (after fix 0c07143), str.strip, the dispatch on the action name, int() and "
+    "json.loads (C02_parse_format), one line per action (C02_one_line_per_action), hence the same patcher run on the parsed script as "
+    "on the in-memory one (C02_pipeline); json.loads(json.dumps(v)) == v with ensure_ascii escapes and surrogate pairs "
+    "(C02_load_dump) and every dumped value is printable ASCII without line boundary (C02_dump_ascii_printable, "
+    "C02_dump_no_line_break). Guard (decidable, ActionOK): node paths of the generated form; tag / attribute / prefix / URI strings "
+    "without comma, double quote or white space; texts, attribute values and comments are unrestricted. PARTIAL: file and stream "
+    "I/O of the commands is observed, not modelled. The model (Model/TextFormat.lean) is compared with the code on every run (U6: "
+    "well-formed and malformed text, the critical character set in every value field); the property itself is also decided on the "
+    "real code by the round-trip oracle and the diff_texts|patch_text and xmldiff|xmlpatch pipelines.",
     note="Trusted: Lean kernel and standard axioms; models of json.dumps/loads, str.splitlines, str.strip, int() validated by "
     "U6, CPython not verified. Fixed defect 0c07143 (commas inside JSON values split the field) is recorded in known_findings.json.",
-    technique="Lean 4 proof (JSON escape/unescape round trip) + model/code differential correspondence + round-trip oracles",
+    technique="Lean 4 proof (format/parse round trip of the whole line grammar, JSON escape/unescape) + model/code differential "
+    "correspondence + round-trip and pipeline oracles",
     design="DESIGN.md section 6, C02",
 )
 
